@@ -75,6 +75,7 @@ def variants(rng, case):
     out.append(("signature-extended", dict(case, sig=list(case["sig"]) + extra, n=n + len(extra))))
     out.append(("formulas-rewritten", dict(case, base=[(k, rewrite(rng, b), rewrite(rng, a)) for (k, b, a) in base],
                                            queries=[(k, rewrite(rng, b), rewrite(rng, a)) for (k, b, a) in qs])))
+    out.append(("formulas-rewritten-some", dict(case, base=[(k, rewrite(rng, b), rewrite(rng, a)) if rng.random() < 0.5 else (k, b, a) for (k, b, a) in base])))
     res = []
     for tag, c in out:
         c = dict(c)
@@ -85,7 +86,7 @@ def variants(rng, case):
 
 def run(tier, seed, broken_proof=False):
     rng = random.Random(seed + 1212)
-    count = 70 if tier == "quick" else 500
+    count = 55 if tier == "quick" else 400
     violations = []
     corr = []
     strata = Counter()
@@ -96,6 +97,15 @@ def run(tier, seed, broken_proof=False):
         cand = ops.corpus_cases(weakly) + ops.gen_ops_cases(rng, count * 2, weakly, max_atoms=4, max_conds=5, nq=4, prefix="v%d" % weakly)
         m0 = common.run_model(cand)
         origs = [c for c in cand if m0[c["id"]]["part"] is not None and c["base"]][:count]
+        for c in origs:
+            if rng.random() < 0.3:      # the same conditional listed twice (other key): counts matter, identity must not
+                k_, b_, a_ = rng.choice(c["base"])
+                c["base"] = c["base"] + [(max(k for k, _, _ in c["base"]) + 1, b_, a_)]
+        mm = common.run_model(origs)
+        for c in origs:
+            extra = ops.tie_queries(rng, c, mm[c["id"]]["part"], 2)
+            k0 = len(c["queries"])
+            c["queries"] = c["queries"] + [(k0 + 1 + i, b, a) for i, (b, a) in enumerate(extra)]
         cfgs = CFGS_STRICT if not weakly else ops.ALL_CONFIGS
         allcases = []
         owner = {}
@@ -159,8 +169,8 @@ def run(tier, seed, broken_proof=False):
         seen.add(k)
         uniq.append(v)
     return {"evaluations": evals, "distinct_nontrivial": len(nontriv),
-            "rule": "each consistent generated/corpus case is presented 9 ways (keys 0-based, sparse, permuted, one key 0; base reordered; atoms renamed; signature reordered / extended by unused atoms; "
-                    "formulas rewritten to equivalent ones) and all operators/back-ends (c-inference strict only) are run on every presentation; non-trivial = distinct (base, query) with A&B and A&!B satisfiable",
+            "rule": "each consistent generated/corpus case is presented 10 ways (keys 0-based, sparse, permuted, one key 0; base reordered; atoms renamed; signature reordered / extended by unused atoms; "
+                    "formulas rewritten to equivalent ones - all of them, or only some) and all operators/back-ends (c-inference strict only) are run on every presentation; non-trivial = distinct (base, query) with A&B and A&!B satisfiable",
             "samples": samples, "strata": dict(strata), "traces_validated_against_impl": evals, "violations": uniq[:25]}
 
 
